@@ -237,10 +237,15 @@ def stereo_mol_graph_to_rdmol(
                 ]
             )
 
-            if neighbors in {p[1:] for p in a_stereo._perm_atoms()}:
-                rd_atom.SetUnsignedProp("_chiralPermutation", 1)
-            else:
-                rd_atom.SetUnsignedProp("_chiralPermutation", 2)
+            # SP1: neighbours in ring order, SP2 / SP3: second and third /
+            # third and fourth neighbour exchanged (as in the import)
+            perm_atoms = {p[1:] for p in a_stereo._perm_atoms()}
+            for label, order in ((1, (0, 1, 2, 3)),
+                                 (2, (0, 2, 1, 3)),
+                                 (3, (0, 1, 3, 2))):
+                if tuple([neighbors[i] for i in order]) in perm_atoms:
+                    rd_atom.SetUnsignedProp("_chiralPermutation", label)
+                    break
 
         elif a_stereo is not None and isinstance(
             a_stereo, TrigonalBipyramidal
